@@ -156,12 +156,15 @@ def rint(rng, lo=-3, hi=3):
     return Fraction(rng.randrange(lo, hi + 1))
 
 
-def gen_lp(rng):
+def gen_lp(rng, shape_nmk=None):
     n = rng.choice([1, 2, 2, 3, 3, 4, 4, 5, 6])
     L = rng.choice([1, 2, 2, 3, 3, 4, 5])
     shape = rng.randrange(6)
     m = L if shape == 0 else 0 if shape == 1 else rng.randrange(0, L + 1)
     k = L - m
+    if shape_nmk is not None:
+        n, m, k = shape_nmk
+        L = m + k
     style = rng.randrange(10)
     posA = style in (0, 1)            # mostly bounded feasible
     A = [[rint(rng, 0 if posA else -3, 3) for _ in range(n)] for _ in range(L)]
@@ -238,6 +241,48 @@ def run_lp(lp, pass_empty_shapes=True):
         kw.update(A_eq=f(lp["A_eq"], k), b_eq=np.array([float(x) for x in lp["b_eq"]], dtype=float))
     r = linprog_simplex(np.array([float(x) for x in lp["c"]]), max_iter=lp["max_iter"], **kw)
     return ([float(v) for v in r.x], [float(v) for v in r.lambd], float(r.fun), bool(r.success), int(r.status), int(r.num_iter))
+
+
+def gen_buffer_sequences(rng, nseq):
+    """call SEQUENCES: 2-4 different LPs of one shape solved with ONE set of caller-supplied output/work buffers
+    (tableau, basis, x, lambd -- every optional buffer of linprog_simplex), pre-filled with garbage (7.0 / 7) and never
+    cleaned between the solves.  mode 'all': all four buffers; 'xl': only x and lambd; 'tb': only tableau and basis."""
+    out = []
+    for sid in range(nseq):
+        probe = gen_lp(rng)
+        shp = (len(probe["c"]), len(probe["A_ub"]), len(probe["A_eq"]))
+        mode = ["all", "all", "xl", "tb"][sid % 4]
+        for pos in range(rng.randrange(2, 5)):
+            lp = gen_lp(rng, shp)
+            lp["max_iter"] = 1000
+            lp["tag"] = "buffers-%s:%s" % (mode, lp["tag"])
+            lp["buf"] = (sid, mode, pos)
+            out.append(lp)
+    return out
+
+
+def run_lp_buffers(lp, store):
+    """solve lp with the (persistent, garbage-initialised) buffers of its sequence; returns (out, problems)"""
+    from quantecon.optimize import linprog_simplex
+    sid, mode, pos = lp["buf"]
+    n, m, k = len(lp["c"]), len(lp["A_ub"]), len(lp["A_eq"])
+    L = m + k
+    if sid not in store:
+        store[sid] = dict(tableau=np.full((L + 1, n + m + L + 1), 7.0), basis=np.full(L, 7, dtype=np.int_),
+                          x=np.full(n, 7.0), lambd=np.full(L, 7.0))
+    b = store[sid]
+    names = {"all": ("tableau", "basis", "x", "lambd"), "xl": ("x", "lambd"), "tb": ("tableau", "basis")}[mode]
+    kw = {name: b[name] for name in names}
+    f = lambda rows, r: np.array([[float(v) for v in row] for row in rows], dtype=float).reshape(r, n)
+    r = linprog_simplex(np.array([float(v) for v in lp["c"]]), A_ub=f(lp["A_ub"], m), b_ub=np.array([float(v) for v in lp["b_ub"]], dtype=float),
+                        A_eq=f(lp["A_eq"], k), b_eq=np.array([float(v) for v in lp["b_eq"]], dtype=float), max_iter=lp["max_iter"], **kw)
+    problems = []
+    if "x" in names and not (np.shares_memory(r.x, b["x"]) and np.array_equal(r.x, b["x"], equal_nan=True)):
+        problems.append("res.x is not the supplied x buffer")
+    if "lambd" in names and not (np.shares_memory(r.lambd, b["lambd"]) and np.array_equal(r.lambd, b["lambd"], equal_nan=True)):
+        problems.append("res.lambd is not the supplied lambd buffer")
+    out = ([float(v) for v in r.x], [float(v) for v in r.lambd], float(r.fun), bool(r.success), int(r.status), int(r.num_iter))
+    return out, problems
 
 
 def lp_input(lp):
@@ -387,6 +432,9 @@ def warmup():
         try:
             run_minmax([[Fraction(1), Fraction(2)], [Fraction(3), Fraction(0)]])
             run_lp(dict(c=[Fraction(1)], A_ub=[[Fraction(1)]], b_ub=[Fraction(1)], A_eq=[], b_eq=[], max_iter=10))
+            for i, mode in enumerate(("all", "xl", "tb")):
+                run_lp_buffers(dict(c=[Fraction(1)], A_ub=[[Fraction(1)]], b_ub=[Fraction(1)], A_eq=[], b_eq=[], max_iter=10,
+                                    buf=(i, mode, 0)), {})
             return
         except OSError:
             time.sleep(1.0 + attempt)
@@ -397,10 +445,25 @@ def run(ctx):
     thorough = ctx.tier == "thorough"
     warmup()
     ctx.proofs(["C04/Props.v", "C04/PropsConsts.v", "C04/PropsTie.v"])
-    lps = fixed_lps() + [gen_lp(ctx.rng) for _ in range(2400 if thorough else 520)]
+    lps = fixed_lps() + [gen_lp(ctx.rng) for _ in range(2400 if thorough else 440)]
+    lps += gen_buffer_sequences(ctx.rng, 160 if thorough else 32)
     cases, fcases, outs = [], [], []
+    bufstore = {}
     for idx, lp in enumerate(lps):
-        out = run_lp(lp, pass_empty_shapes=(idx % 2 == 0))
+        if "buf" in lp:
+            # the model knows no buffers: the result must be the fresh-buffer result (compared with the model below AND
+            # with a fresh-buffer run of the implementation here); the oracle runs on the RETURNED arrays
+            out, problems = run_lp_buffers(lp, bufstore)
+            fresh = run_lp(lp)
+            ctx.count("lp_buffer_sequence:%s:position=%d" % (lp["buf"][1], lp["buf"][2]))
+            same = out[3:] == fresh[3:] and (out[2] == fresh[2]) and (fresh[2] == -math.inf or (out[0] == fresh[0] and out[1] == fresh[1]))
+            if not same:
+                problems.append("result with caller-supplied (reused / garbage-filled) buffers differs from the fresh-buffer result %r" % (fresh,))
+            for what in problems:
+                ctx.fail("lp_buffers", what, dict(lp_input(lp), buffers=lp["buf"][1], position_in_sequence=lp["buf"][2]),
+                         dict(zip(("x", "lambd", "fun", "success", "status", "num_iter"), out)), None)
+        else:
+            out = run_lp(lp, pass_empty_shapes=(idx % 2 == 0))
         outs.append(out)
         x, lambd, fun, su, st, ni = out
         n, m, k = len(lp["c"]), len(lp["A_ub"]), len(lp["A_eq"])
@@ -504,29 +567,44 @@ def run(ctx):
         model = ctx.coq_eval(IMPORTS, "let '(m, n, A, mi, _) := %s in minmax m n A mi optsF" % fcases[i], preamble=PREAMBLE)
         ctx.mismatch("C04.Model.minmax (binary64 instance) vs optimize.minmax: v, x, y bit-exact", {"A": A, "tag": tag},
                      dict(zip(("v", "x", "y"), out)), model[:1500])
-    bad = ctx.coq_check("minmax_exactQ", IMPORTS, "MMQ", "mm_ok opts", cases, chunk=40, preamble=PREAMBLE)
+    # exact rationals of 53-bit floats on 8x8 tableaux are expensive: small chunks spread the few heavy cases over the cores
+    # (raw binary64 data above 5x5 is left to the bit-exact binary64 model + oracle: one such game costs ~40 s in exact Q)
+    heavy = lambda i: (meta[i][1].startswith("real:") and meta[i][1] not in ("real:dyadic-positive<1",)
+                       and any(frac(a).denominator > 1024 for r in meta[i][0] for a in r)
+                       and max(len(meta[i][0]), len(meta[i][0][0])) > 5)
+    keep = [i for i in range(len(cases)) if not heavy(i)]
+    ctx.count("minmax_exactQ_skipped(raw floats, larger than 5x5)", len(cases) - len(keep))
+    all_cases, all_meta = cases, meta
+    cases, meta = [all_cases[i] for i in keep], [all_meta[i] for i in keep]
+    bad = ctx.coq_check("minmax_exactQ", IMPORTS, "MMQ", "mm_ok opts", cases, chunk=5, preamble=PREAMBLE)
     ctx.count("minmax_exactQ_path_differs_from_float_path", len(bad))
     ctx.count("minmax_exactQ_same_strategies", len(cases) - len(bad))
-    badw = ctx.coq_check("minmax_exactQ_value", IMPORTS, "MMQ", "mm_ok_weak opts", [cases[i] for i in bad], chunk=40, preamble=PREAMBLE)
-    # hypothesis of theorem C04_minmax_certificate: the inner solve_tableau ends with status 0 (tolerance 0) -- measured
-    bad_st = ctx.coq_check("minmax_inner_status0_tol0", IMPORTS, "MMQ",
-                           "fun c => let '(m, n, A, mi, _) := c in Nat.eqb (minmax_inner_status m n A mi) 0", cases, chunk=40, preamble=PREAMBLE)
-    ctx.count("minmax_inner_status_nonzero(tol0)", len(bad_st))
-    ctx.count("minmax_inner_status_zero(tol0)", len(cases) - len(bad_st))
-    nosep = ctx.coq_check("minmax_sep_ok", IMPORTS, "MMQ", "fun c => let '(m, n, A, mi, _) := c in minmax_sep m n A mi opts",
-                          cases, chunk=40, preamble=PREAMBLE)
-    ctx.corr["minmax_sep_ok"]["mismatches"] = 0
-    ctx.count("minmax_sep_ok:true", len(cases) - len(nosep))
-    ctx.count("minmax_sep_ok:false", len(nosep))
-    for j in nosep:
-        ctx.count("minmax_sep_ok:false:" + meta[j][1])
-    bad_t0 = ctx.coq_check("minmax_tol0", IMPORTS, "MMQ", "mm_ok opts0", cases, chunk=40, preamble=PREAMBLE)
-    ctx.count("minmax_tol0_run_differs", len([i for i in bad_t0 if i not in set(bad)]))
+    badw = ctx.coq_check("minmax_exactQ_value", IMPORTS, "MMQ", "mm_ok_weak opts", [cases[i] for i in bad], chunk=5, preamble=PREAMBLE)
     for j in badw:
         A, tag, out = meta[bad[j]]
         model = ctx.coq_eval(IMPORTS, "minmax %s %s %s 1000 opts" % (natlit(len(A)), natlit(len(A[0])), qlist2(A)), preamble=PREAMBLE)
         ctx.mismatch("C04.Model.minmax (exact Q instance) vs optimize.minmax: value v", {"A": A, "tag": tag},
                      dict(zip(("v", "x", "y"), out)), model[:1500])
+    # one pass with tolerance 0: sep_ok (hypothesis of C04_minmax_certificate_src), inner status 0 (hypothesis of
+    # C04_minmax_certificate) and equality of the tolerance-0 run with the implementation's output; the three
+    # measurements are separated only on the (normally empty) set of cases where the conjunction fails
+    conj = ("fun c => let '(m, n, A, mi, _) := c in minmax_sep m n A mi opts && Nat.eqb (minmax_inner_status m n A mi) 0 && mm_ok opts0 c")
+    badc = ctx.coq_check("minmax_tol0:sep_ok&inner_status0&same_output", IMPORTS, "MMQ", conj, cases, chunk=5, preamble=PREAMBLE)
+    ctx.corr["minmax_tol0:sep_ok&inner_status0&same_output"]["mismatches"] = 0      # measured hypotheses, not a correspondence
+    sub = [cases[i] for i in badc]
+    nosep = ctx.coq_check("minmax_sep_ok", IMPORTS, "MMQ", "fun c => let '(m, n, A, mi, _) := c in minmax_sep m n A mi opts", sub, chunk=5, preamble=PREAMBLE)
+    bad_st = ctx.coq_check("minmax_inner_status0_tol0", IMPORTS, "MMQ",
+                           "fun c => let '(m, n, A, mi, _) := c in Nat.eqb (minmax_inner_status m n A mi) 0", sub, chunk=5, preamble=PREAMBLE)
+    bad_t0 = ctx.coq_check("minmax_tol0", IMPORTS, "MMQ", "mm_ok opts0", sub, chunk=5, preamble=PREAMBLE)
+    for nm in ("minmax_sep_ok", "minmax_inner_status0_tol0", "minmax_tol0"):
+        ctx.corr[nm]["mismatches"] = 0
+    ctx.count("minmax_sep_ok:true", len(cases) - len(nosep))
+    ctx.count("minmax_sep_ok:false", len(nosep))
+    for j in nosep:
+        ctx.count("minmax_sep_ok:false:" + meta[badc[j]][1])
+    ctx.count("minmax_inner_status_nonzero(tol0)", len(bad_st))
+    ctx.count("minmax_inner_status_zero(tol0)", len(cases) - len(bad_st))
+    ctx.count("minmax_tol0_run_differs", len([j for j in bad_t0 if badc[j] not in set(bad)]))
 
 
 def replay(data):
@@ -545,7 +623,15 @@ def replay(data):
     else:
         lp = dict(c=[Fraction(x) for x in inp["c"]], A_ub=fr(inp["A_ub"]), b_ub=[Fraction(x) for x in inp["b_ub"]],
                   A_eq=fr(inp["A_eq"]), b_eq=[Fraction(x) for x in inp["b_eq"]], max_iter=inp.get("max_iter", 1000), tag=inp.get("tag", ""))
-        out = run_lp(lp)
+        if inp.get("buffers"):      # caller-supplied buffers pre-filled with garbage (7.0)
+            lp["buf"] = (0, inp["buffers"], 0)
+            out, problems = run_lp_buffers(lp, {})
+            fresh = run_lp(lp)
+            print("with garbage-filled %s buffers: %r ; fresh buffers: %r ; %s" % (inp["buffers"], out, fresh, problems))
+            if out[2:] != fresh[2:] or (fresh[2] != -math.inf and out[:2] != fresh[:2]):
+                print("ORACLE FAIL lp_buffers: result depends on the contents of the supplied buffers")
+        else:
+            out = run_lp(lp)
         print("implementation: x=%s lambd=%s fun=%r success=%s status=%s num_iter=%s" % out)
         ex = lp_exact(lp["c"], lp["A_ub"], lp["b_ub"], lp["A_eq"], lp["b_eq"])
         print("exact classification (0 optimal / 2 infeasible / 3 unbounded): %s, optimum %s" % ex)
